@@ -612,4 +612,295 @@ theorem cell_der (c : CellCard) (hwf : c.WF = true) (hnz : c.interpEndNonzero = 
 
 end cell
 
+/-! ## surface cards -/
+
+def reqSurface : Prods :=
+  reqNumbers ++
+  [("surface_id", ["number_phrase"]), ("surface_id", ["*", "number_phrase"]),
+   ("surface", ["surface_id", "SURFACE_TYPE", "padding", "number_sequence"]),
+   ("surface", ["padding", "surface_id", "SURFACE_TYPE", "padding", "number_sequence"]),
+   ("surface", ["surface_id", "number_phrase", "SURFACE_TYPE", "padding", "number_sequence"]),
+   ("surface", ["padding", "surface_id", "number_phrase", "SURFACE_TYPE", "padding", "number_sequence"])]
+
+theorem reqNumbers_sub_surface : reqNumbers ⊆ reqSurface := by decide
+theorem reqPadding_sub_surface : reqPadding ⊆ reqSurface := by decide
+
+section surface
+variable (hP : reqSurface ⊆ P)
+include hP
+
+/-- every well-formed surface card of G derives from `surface` -/
+theorem surface_der (s : SurfaceCard) (hwf : s.WF = true) (hnz : s.constants.interpEndNonzero = true) :
+    Der P "surface" s.classes := by
+  have hnum : reqNumbers ⊆ P := fun _ h => hP (reqNumbers_sub_surface h)
+  have hpad : reqPadding ⊆ P := fun _ h => hP (reqPadding_sub_surface h)
+  simp [SurfaceCard.WF] at hwf
+  obtain ⟨⟨⟨⟨⟨⟨hlead, hg0⟩, hg1⟩, hptr⟩, hcs⟩, hcne⟩, _⟩ := hwf
+  have hnp := number_phrase_der hnum s.g0 (req_split hg0).1
+  have hid : Der P "surface_id" ((if s.star then ["*"] else []) ++ ("NUMBER" :: s.g0.cls)) := by
+    cases s.star
+    · exact (Der.rule (hP (by decide : ("surface_id", ["number_phrase"]) ∈ reqSurface)) (.nt hnp .nil)).cast (by simp)
+    · exact (Der.rule (hP (by decide : ("surface_id", ["*", "number_phrase"]) ∈ reqSurface)) (.tok (.nt hnp .nil))).cast
+        (by simp)
+  obtain ⟨hg1ok, hg1ne⟩ := req_split hg1
+  have hp1 := pad_der hpad s.g1 hg1ok hg1ne
+  have hseq := entries_der hnum s.constants hcne hcs hnz
+  cases hpt : s.pointer with
+  | none =>
+    by_cases hle : s.lead = []
+    · exact (Der.rule (hP (by decide : ("surface", ["surface_id", "SURFACE_TYPE", "padding", "number_sequence"]) ∈ reqSurface))
+        (.nt hid (.tok (.nt hp1 (.nt hseq .nil))))).cast (by simp [SurfaceCard.classes, hpt, hle, Gap.cls])
+    · have hl := pad_der hpad s.lead hlead hle
+      exact (Der.rule (hP (by decide : ("surface", ["padding", "surface_id", "SURFACE_TYPE", "padding", "number_sequence"]) ∈ reqSurface))
+        (.nt hl (.nt hid (.tok (.nt hp1 (.nt hseq .nil)))))).cast (by simp [SurfaceCard.classes, hpt])
+  | some pg =>
+    obtain ⟨pt, g⟩ := pg
+    have hg : g.req = true := by simpa [hpt] using hptr
+    have hpp := number_phrase_der hnum g (req_split hg).1
+    by_cases hle : s.lead = []
+    · exact (Der.rule (hP (by decide : ("surface", ["surface_id", "number_phrase", "SURFACE_TYPE", "padding", "number_sequence"]) ∈ reqSurface))
+        (.nt hid (.nt hpp (.tok (.nt hp1 (.nt hseq .nil)))))).cast (by simp [SurfaceCard.classes, hpt, hle, Gap.cls])
+    · have hl := pad_der hpad s.lead hlead hle
+      exact (Der.rule (hP (by decide : ("surface", ["padding", "surface_id", "number_phrase", "SURFACE_TYPE", "padding", "number_sequence"]) ∈ reqSurface))
+        (.nt hl (.nt hid (.nt hpp (.tok (.nt hp1 (.nt hseq .nil))))))).cast (by simp [SurfaceCard.classes, hpt])
+
+end surface
+
+/-! ## data cards: the introduction shared by every data parser -/
+
+def reqIntro : Prods :=
+  reqClassifier ++
+  [("classifier_phrase", ["classifier"]), ("classifier_phrase", ["classifier", "padding"]),
+   ("introduction", ["classifier_phrase"]), ("introduction", ["padding", "classifier_phrase"]),
+   ("introduction", ["classifier_phrase", "KEYWORD", "padding"]),
+   ("introduction", ["padding", "classifier_phrase", "KEYWORD", "padding"])]
+
+theorem reqClassifier_sub_intro : reqClassifier ⊆ reqIntro := by decide
+theorem reqPadding_sub_intro : reqPadding ⊆ reqIntro := by decide
+
+section intro
+variable (hP : reqIntro ⊆ P)
+include hP
+
+/-- `lead classifier g0` is an `introduction` -/
+theorem intro_der (lead : Gap) (c : Classifier) (g0 : Gap) (hl : lead.ok = true) (hc : c.WF = true)
+    (hg : g0.ok = true) : Der P "introduction" (lead.cls ++ c.classes ++ g0.cls) := by
+  have hcl : reqClassifier ⊆ P := fun _ h => hP (reqClassifier_sub_intro h)
+  have hpad : reqPadding ⊆ P := fun _ h => hP (reqPadding_sub_intro h)
+  have hcp : Der P "classifier_phrase" (c.classes ++ g0.cls) :=
+    wrap_der hpad (hP (by decide)) (hP (by decide)) (classifier_der hcl c hc) g0 hg
+  by_cases hle : lead = []
+  · exact (Der.rule (hP (by decide : ("introduction", ["classifier_phrase"]) ∈ reqIntro)) (.nt hcp .nil)).cast
+      (by simp [hle, Gap.cls])
+  · have hp := pad_der hpad lead hl hle
+    exact (Der.rule (hP (by decide : ("introduction", ["padding", "classifier_phrase"]) ∈ reqIntro))
+      (.nt hp (.nt hcp .nil))).cast (by simp)
+
+/-- `lead classifier g0 KEYWORD gk` is an `introduction` (`VOL NO …`) -/
+theorem intro_kw_der (lead : Gap) (c : Classifier) (g0 gk : Gap) (hl : lead.ok = true) (hc : c.WF = true)
+    (hg : g0.ok = true) (hk : gk.req = true) :
+    Der P "introduction" (lead.cls ++ c.classes ++ g0.cls ++ ("KEYWORD" :: gk.cls)) := by
+  have hcl : reqClassifier ⊆ P := fun _ h => hP (reqClassifier_sub_intro h)
+  have hpad : reqPadding ⊆ P := fun _ h => hP (reqPadding_sub_intro h)
+  have hcp : Der P "classifier_phrase" (c.classes ++ g0.cls) :=
+    wrap_der hpad (hP (by decide)) (hP (by decide)) (classifier_der hcl c hc) g0 hg
+  obtain ⟨hk1, hk2⟩ := req_split hk
+  have hpk := pad_der hpad gk hk1 hk2
+  by_cases hle : lead = []
+  · exact (Der.rule (hP (by decide : ("introduction", ["classifier_phrase", "KEYWORD", "padding"]) ∈ reqIntro))
+      (.nt hcp (.tok (.nt hpk .nil)))).cast (by simp [hle, Gap.cls])
+  · have hp := pad_der hpad lead hl hle
+    exact (Der.rule (hP (by decide : ("introduction", ["padding", "classifier_phrase", "KEYWORD", "padding"]) ∈ reqIntro))
+      (.nt hp (.nt hcp (.tok (.nt hpk .nil))))).cast (by simp)
+
+end intro
+
+/-! ## data cards parsed by `DataParser`: number lists (with an optional keyword) and MODE -/
+
+def reqData : Prods :=
+  reqIntro ++ reqNumbers ++
+  [("data_input", ["introduction"]), ("data_input", ["introduction", "data"]),
+   ("data", ["number_sequence"]), ("data", ["particle_sequence"]),
+   ("particle_sequence", ["particle_phrase"]), ("particle_sequence", ["particle_sequence", "particle_phrase"]),
+   ("particle_phrase", ["particle_text"]), ("particle_phrase", ["particle_text", "padding"]),
+   ("particle_text", ["PARTICLE"])]
+
+theorem reqIntro_sub_data : reqIntro ⊆ reqData := by decide
+theorem reqNumbers_sub_data : reqNumbers ⊆ reqData := by decide
+theorem reqPadding_sub_data : reqPadding ⊆ reqData := by decide
+
+/-- the bodies `DataParser` itself parses -/
+def DataCard.isPlain (d : DataCard) : Bool :=
+  match d.body with
+  | .numbers .. => true
+  | .mode _ => true
+  | _ => false
+
+section data
+variable (hP : reqData ⊆ P)
+include hP
+
+theorem data_der (d : DataCard) (hwf : d.WF = true) (hnz : d.interpEndNonzero = true)
+    (hplain : DataCard.isPlain d = true) : Der P "data_input" d.classes := by
+  have hin : reqIntro ⊆ P := fun _ h => hP (reqIntro_sub_data h)
+  have hnum : reqNumbers ⊆ P := fun _ h => hP (reqNumbers_sub_data h)
+  have hpad : reqPadding ⊆ P := fun _ h => hP (reqPadding_sub_data h)
+  obtain ⟨lead, c, g0, body⟩ := d
+  cases body with
+  | numbers kw es =>
+    simp [DataCard.WF] at hwf
+    simp [DataCard.interpEndNonzero] at hnz
+    obtain ⟨⟨⟨hl, hg⟩, hc⟩, ⟨hes, hkw⟩, _⟩ := hwf
+    have hintro : ∃ wi, Der P "introduction" wi ∧
+        (DataCard.mk lead c g0 (.numbers kw es)).classes = wi ++ es.classes := by
+      cases kw with
+      | none => exact ⟨_, intro_der hin lead c g0 hl hc hg, by simp [DataCard.classes]⟩
+      | some kg =>
+        obtain ⟨k, gk⟩ := kg
+        simp at hkw
+        exact ⟨_, intro_kw_der hin lead c g0 gk hl hc hg hkw.1, by simp [DataCard.classes]⟩
+    obtain ⟨wi, hi, hcls⟩ := hintro
+    rw [hcls]
+    by_cases hee : es = []
+    · subst hee
+      exact (Der.rule (hP (by decide : ("data_input", ["introduction"]) ∈ reqData)) (.nt hi .nil)).cast
+        (by simp [Entries.classes])
+    · have hseq := entries_der hnum es hee hes hnz
+      have hd : Der P "data" es.classes :=
+        (Der.rule (hP (by decide : ("data", ["number_sequence"]) ∈ reqData)) (.nt hseq .nil)).cast (by simp)
+      exact (Der.rule (hP (by decide : ("data_input", ["introduction", "data"]) ∈ reqData)) (.nt hi (.nt hd .nil))).cast
+        (by simp)
+  | mode ps =>
+    simp [DataCard.WF] at hwf
+    obtain ⟨⟨⟨hl, hg⟩, hc⟩, ⟨hne, _⟩, hps⟩ := hwf
+    have hi := intro_der hin lead c g0 hl hc hg
+    have hseq : Der P "particle_sequence" (ps.flatMap (fun p : String × Gap => ["PARTICLE"] ++ p.2.cls)) :=
+      leftrec (fun p : String × Gap => ["PARTICLE"] ++ p.2.cls) ps hne (fun p hm => by
+        refine ⟨"particle_phrase", hP (by decide), hP (by decide), ?_⟩
+        have ht : Der P "particle_text" ["PARTICLE"] :=
+          Der.rule (hP (by decide : ("particle_text", ["PARTICLE"]) ∈ reqData)) (.tok .nil)
+        exact wrap_der hpad (hP (by decide)) (hP (by decide)) ht p.2 (hps p.1 p.2 hm))
+    have hd : Der P "data" (ps.flatMap (fun p : String × Gap => ["PARTICLE"] ++ p.2.cls)) :=
+      (Der.rule (hP (by decide : ("data", ["particle_sequence"]) ∈ reqData)) (.nt hseq .nil)).cast (by simp)
+    exact (Der.rule (hP (by decide : ("data_input", ["introduction", "data"]) ∈ reqData)) (.nt hi (.nt hd .nil))).cast
+      (by simp [DataCard.classes])
+  | material _ _ => simp [DataCard.isPlain] at hplain
+  | thermal _ => simp [DataCard.isPlain] at hplain
+
+end data
+
+/-! ## material cards (`MaterialParser`) -/
+
+def reqMaterial : Prods :=
+  reqIntro ++ reqNumbers ++
+  [("material", ["introduction", "isotopes"]), ("material", ["introduction", "isotopes", "parameters"]),
+   ("isotopes", ["isotope_fractions"]),
+   ("isotope_fractions", ["isotope_fraction"]), ("isotope_fractions", ["isotope_fractions", "isotope_fraction"]),
+   ("isotope_fraction", ["zaid_phrase", "number_phrase"]),
+   ("zaid_phrase", ["ZAID"]), ("zaid_phrase", ["ZAID", "padding"]),
+   ("parameters", ["parameter"]), ("parameters", ["parameters", "parameter"]),
+   ("parameter", ["classifier", "param_seperator", "number_sequence"]),
+   ("parameter", ["classifier", "param_seperator", "text_phrase"]),
+   ("text_phrase", ["NUMBER_WORD"]), ("text_phrase", ["NUMBER_WORD", "padding"])]
+
+theorem reqIntro_sub_material : reqIntro ⊆ reqMaterial := by decide
+theorem reqNumbers_sub_material : reqNumbers ⊆ reqMaterial := by decide
+theorem reqPadding_sub_material : reqPadding ⊆ reqMaterial := by decide
+theorem reqClassifier_sub_material : reqClassifier ⊆ reqMaterial := by decide
+
+section material
+variable (hP : reqMaterial ⊆ P)
+include hP
+
+theorem matparam_der (p : MatParam) (hwf : p.WF = true)
+    (hnz : (match p.val with | .nums es => es.interpEndNonzero | _ => true) = true) :
+    Der P "parameter" p.classes := by
+  have hcl : reqClassifier ⊆ P := fun _ h => hP (reqClassifier_sub_material h)
+  have hnum : reqNumbers ⊆ P := fun _ h => hP (reqNumbers_sub_material h)
+  have hpad : reqPadding ⊆ P := fun _ h => hP (reqPadding_sub_material h)
+  obtain ⟨key, sep, val⟩ := p
+  simp [MatParam.WF] at hwf
+  obtain ⟨⟨h1, h2⟩, h3⟩ := hwf
+  cases val with
+  | lib t a =>
+    simp at h3
+    have ht : Der P "text_phrase" ("NUMBER_WORD" :: a.cls) :=
+      phrase_der hpad (hP (by decide)) (hP (by decide)) a h3
+    exact (Der.rule (hP (by decide : ("parameter", ["classifier", "param_seperator", "text_phrase"]) ∈ reqMaterial))
+      (.nt (classifier_der hcl key h1) (.nt (sep_der hcl sep h2) (.nt ht .nil)))).cast (by simp [MatParam.classes])
+  | nums es =>
+    simp at h3 hnz
+    have hs := entries_der hnum es h3.2 h3.1 hnz
+    exact (Der.rule (hP (by decide : ("parameter", ["classifier", "param_seperator", "number_sequence"]) ∈ reqMaterial))
+      (.nt (classifier_der hcl key h1) (.nt (sep_der hcl sep h2) (.nt hs .nil)))).cast (by simp [MatParam.classes])
+
+theorem material_der (lead : Gap) (c : Classifier) (g0 : Gap) (fr : List (String × Gap × Num × Gap))
+    (ps : List MatParam) (hwf : (DataCard.mk lead c g0 (.material fr ps)).WF = true)
+    (hnz : (DataCard.mk lead c g0 (.material fr ps)).interpEndNonzero = true) :
+    Der P "material" (DataCard.mk lead c g0 (.material fr ps)).classes := by
+  have hin : reqIntro ⊆ P := fun _ h => hP (reqIntro_sub_material h)
+  have hnum : reqNumbers ⊆ P := fun _ h => hP (reqNumbers_sub_material h)
+  have hpad : reqPadding ⊆ P := fun _ h => hP (reqPadding_sub_material h)
+  simp [DataCard.WF] at hwf
+  simp [DataCard.interpEndNonzero] at hnz
+  obtain ⟨⟨⟨hl, hg⟩, hc⟩, ⟨⟨hne, _⟩, hfr⟩, hps⟩ := hwf
+  have hi := intro_der hin lead c g0 hl hc hg
+  have hfrs : Der P "isotope_fractions"
+      (fr.flatMap (fun f : String × Gap × Num × Gap => ["ZAID"] ++ f.2.1.cls ++ ["NUMBER"] ++ f.2.2.2.cls)) :=
+    leftrec (fun f : String × Gap × Num × Gap => ["ZAID"] ++ f.2.1.cls ++ ["NUMBER"] ++ f.2.2.2.cls) fr hne
+      (fun f hm => by
+        refine ⟨"isotope_fraction", hP (by decide), hP (by decide), ?_⟩
+        obtain ⟨z, g1, n, g2⟩ := f
+        have hf := hfr z g1 n g2 hm
+        have hz : Der P "zaid_phrase" ("ZAID" :: g1.cls) :=
+          phrase_der hpad (hP (by decide)) (hP (by decide)) g1 (req_split hf.1.1).1
+        have hn := number_phrase_der hnum g2 hf.1.2
+        exact (Der.rule (hP (by decide : ("isotope_fraction", ["zaid_phrase", "number_phrase"]) ∈ reqMaterial))
+          (.nt hz (.nt hn .nil))).cast (by simp))
+  have hiso := (Der.rule (hP (by decide : ("isotopes", ["isotope_fractions"]) ∈ reqMaterial)) (.nt hfrs .nil)).cast
+    (List.append_nil _)
+  by_cases hpe : ps = []
+  · subst hpe
+    exact (Der.rule (hP (by decide : ("material", ["introduction", "isotopes"]) ∈ reqMaterial))
+      (.nt hi (.nt hiso .nil))).cast (by simp [DataCard.classes])
+  · have hpar : Der P "parameters" (ps.flatMap MatParam.classes) :=
+      leftrec MatParam.classes ps hpe (fun p hm =>
+        ⟨"parameter", hP (by decide), hP (by decide), matparam_der hP p (hps p hm) (hnz p hm)⟩)
+    exact (Der.rule (hP (by decide : ("material", ["introduction", "isotopes", "parameters"]) ∈ reqMaterial))
+      (.nt hi (.nt hiso (.nt hpar .nil)))).cast (by simp [DataCard.classes])
+
+end material
+
+/-! ## thermal-scattering cards (`ThermalParser`) -/
+
+def reqThermal : Prods :=
+  reqIntro ++
+  [("thermal_mat", ["introduction", "thermal_law_sequence"]),
+   ("thermal_law_sequence", ["thermal_law"]), ("thermal_law_sequence", ["thermal_law_sequence", "thermal_law"]),
+   ("thermal_law", ["THERMAL_LAW"]), ("thermal_law", ["THERMAL_LAW", "padding"])]
+
+theorem reqIntro_sub_thermal : reqIntro ⊆ reqThermal := by decide
+theorem reqPadding_sub_thermal : reqPadding ⊆ reqThermal := by decide
+
+section thermal
+variable (hP : reqThermal ⊆ P)
+include hP
+
+theorem thermal_der (lead : Gap) (c : Classifier) (g0 : Gap) (laws : List (String × Gap))
+    (hwf : (DataCard.mk lead c g0 (.thermal laws)).WF = true) :
+    Der P "thermal_mat" (DataCard.mk lead c g0 (.thermal laws)).classes := by
+  have hin : reqIntro ⊆ P := fun _ h => hP (reqIntro_sub_thermal h)
+  have hpad : reqPadding ⊆ P := fun _ h => hP (reqPadding_sub_thermal h)
+  simp [DataCard.WF] at hwf
+  obtain ⟨⟨⟨hl, hg⟩, hc⟩, ⟨hne, _⟩, hls⟩ := hwf
+  have hi := intro_der hin lead c g0 hl hc hg
+  have hseq : Der P "thermal_law_sequence" (laws.flatMap (fun l : String × Gap => ["THERMAL_LAW"] ++ l.2.cls)) :=
+    leftrec (fun l : String × Gap => ["THERMAL_LAW"] ++ l.2.cls) laws hne (fun l hm => by
+      refine ⟨"thermal_law", hP (by decide), hP (by decide), ?_⟩
+      exact phrase_der hpad (hP (by decide)) (hP (by decide)) l.2 (hls l.1 l.2 hm))
+  exact (Der.rule (hP (by decide : ("thermal_mat", ["introduction", "thermal_law_sequence"]) ∈ reqThermal))
+    (.nt hi (.nt hseq .nil))).cast (by simp [DataCard.classes])
+
+end thermal
+
 end MontePyVerif.Cfg
